@@ -8,7 +8,7 @@ use sup::*;
 
 fn be16(a: u8, b: u8) -> u16 { ((a as u16) << 8) | b as u16 }
 
-//# id=decode.total props=C14,C08 kind=complete pair=
+//# id=decode.total fns=Ipv4Header::from_bytes props=C14,C08 kind=complete pair=
 // no byte string of any length 0..=24 makes the decoder panic; shorter than 20 bytes is never accepted
 #[cfg_attr(kani, kani::proof)]
 #[cfg_attr(vx_replay, test)]
@@ -23,7 +23,7 @@ fn h_ipv4_decode_total() {
     vx_cover!(r.is_ok());
 }
 
-//# id=decode.reencode props=C08,C14 kind=complete pair=
+//# id=decode.reencode fns=Ipv4Header::from_bytes+Ipv4Header::serialize+Ipv4HeaderBuilder::build props=C08,C14 kind=complete pair=
 // for every accepted 20-byte string, re-encoding the decoded value reproduces the bytes consumed
 #[cfg_attr(kani, kani::proof)]
 #[cfg_attr(kani, kani::unwind(22))]
@@ -54,7 +54,7 @@ fn h_ipv4_decode_reencode() {
     }
 }
 
-//# id=encode.decode_and_wire_format props=C08 kind=complete pair=
+//# id=encode.decode_and_wire_format fns=Ipv4HeaderBuilder::build+Ipv4Header::from_bytes props=C08 kind=complete pair=
 // every representable header: encoder output equals the RFC 791 layout byte for byte, and decodes to the same fields
 #[cfg_attr(kani, kani::proof)]
 #[cfg_attr(kani, kani::unwind(22))]
@@ -136,7 +136,7 @@ fn structurally_valid(b: &[u8; 20]) -> bool {
     b[0] == 0x45 && b[1] & 0b11 == 0 && be16(b[2], b[3]) >= 20 && b[6] & 0x80 == 0
 }
 
-//# id=checksum.emitted_header_verifies props=C18 kind=complete features=compute_checksum tier=thorough pair=
+//# id=checksum.emitted_header_verifies fns=Ipv4HeaderBuilder::build+Checksum::* props=C18 kind=complete features=compute_checksum tier=thorough pair=
 // every emitted IPv4 header verifies under the RFC 1071 rule (sum of all ten words is all ones)
 #[cfg(feature = "compute_checksum")]
 #[cfg_attr(kani, kani::proof)]
@@ -179,7 +179,7 @@ fn h_ck_ipv4_emit_verifies() {
     }
 }
 
-//# id=checksum.decoder_accepts_conforming props=C18 kind=complete features=compute_checksum tier=thorough pair=
+//# id=checksum.decoder_accepts_conforming fns=Ipv4Header::from_bytes+Checksum::* props=C18 kind=complete features=compute_checksum tier=thorough pair=
 // the decoder accepts every structurally valid header whose checksum verifies under RFC 1071
 // (checksum field other than 0x0000: see the known-finding harness below for that class)
 #[cfg(feature = "compute_checksum")]
@@ -194,7 +194,7 @@ fn h_ck_ipv4_accepts_conforming() {
     assert!(Ipv4Header::from_bytes(b.into_iter()).is_ok());
 }
 
-//# id=checksum.decoder_accepts_conforming_zero_field props=C18 kind=complete features=compute_checksum pair=
+//# id=checksum.decoder_accepts_conforming_zero_field fns=Ipv4Header::from_bytes+Checksum::matches props=C18 kind=complete features=compute_checksum pair=
 // class: a conforming sender whose other nine words sum to 0xffff transmits the checksum 0x0000
 #[cfg(feature = "compute_checksum")]
 #[cfg_attr(kani, kani::proof)]
@@ -208,7 +208,7 @@ fn h_ck_ipv4_accepts_conforming_zero_field() {
     assert!(Ipv4Header::from_bytes(b.into_iter()).is_ok());
 }
 
-//# id=checksum.decoder_rejects_corruption props=C18 kind=complete features=compute_checksum tier=thorough pair=
+//# id=checksum.decoder_rejects_corruption fns=Ipv4Header::from_bytes+Checksum::* props=C18 kind=complete features=compute_checksum tier=thorough pair=
 // a header that does not verify under RFC 1071 is never accepted
 #[cfg(feature = "compute_checksum")]
 #[cfg_attr(kani, kani::proof)]
